@@ -2,24 +2,31 @@
 (***************************************************************************)
 (* Property C10 judged on request-level traces of the REAL throttling      *)
 (* checker (harness/cmd/c10):                                              *)
-(*   new(tr, maxq, tol, si [, rule])  inv(p, arr, b, tn, td | mem)         *)
-(*   ret(p, res, w)  step  tick  end                                       *)
-(* in the total order of the execution.  Every invocation carries the      *)
-(* batch and the THRESHOLD IN FORCE FOR THAT REQUEST: either the fraction  *)
-(* tn/td handed to the check (Direct rule: the rule's threshold; direct    *)
-(* DoCheck calls: the argument of the call), or - for a MemoryAdaptive     *)
-(* rule - the memory usage `mem' published before the request, from which  *)
-(* the spec derives the threshold (ThrottleProp!MemThr).  The spacing owed *)
-(* by a request is computed by the spec from that threshold and the        *)
-(* statistic interval `si' of the trace (ThrottleProp!Iv).  At the end of  *)
-(* a trace the operators of ThrottleProp decide Spacing, BoundedWait and   *)
-(* NoSpuriousReject (with the trace's float slack `tol').                  *)
+(*   new(tr, maxq, tol, si [, tn, td] [, rule])                            *)
+(*   reload(si, maxq [, tn, td] [, rule])                                  *)
+(*   inv(p, arr, b [, tn, td | mem])   ret(p, res, w)  step  tick  end     *)
+(* in the total order of the execution.                                    *)
+(* The parameters of the rule in force are STATE of this spec (`cur'):     *)
+(* `new' carries the rule loaded first, every `reload' (flow.LoadRules /   *)
+(* LoadRulesOfResource returned) the rule that replaces it and starts a    *)
+(* new epoch.  An invocation is recorded with the epoch, the statistic     *)
+(* interval and the queueing limit in force at that moment and with the    *)
+(* THRESHOLD IN FORCE FOR THAT REQUEST: the fraction tn/td handed to the   *)
+(* check when the event carries one (direct DoCheck calls: the argument of *)
+(* the call), for a MemoryAdaptive rule the value the spec derives from    *)
+(* the memory usage `mem' published before the request                     *)
+(* (ThrottleProp!MemThr on the rule in force), otherwise the threshold of  *)
+(* the rule in force.  The spacing owed by a request is computed by the    *)
+(* spec from those (ThrottleProp!Iv).  At the end of a trace the operators *)
+(* of ThrottleProp decide Spacing, BoundedWait and NoSpuriousReject (with  *)
+(* the trace's float slack `tol'); what is owed across a reload is stated  *)
+(* in ThrottleProp.                                                        *)
 (***************************************************************************)
 EXTENDS ThrottleProp, Sequences, TLC, Json
 
 Trace == ndJsonDeserialize("trace.ndjson")
-VARIABLES l, g, seq, reqs, pend, failed
-tvars == <<l, g, seq, reqs, pend, failed>>
+VARIABLES l, g, cur, seq, reqs, pend, failed
+tvars == <<l, g, cur, seq, reqs, pend, failed>>
 Ev == Trace[l]
 IsEvent(op) == l <= Len(Trace) /\ Ev.op = op /\ l' = l + 1
 Procs == 1..64
@@ -31,46 +38,61 @@ Judge(ok, expected) ==
     ELSE /\ failed' = TRUE
          /\ PrintT("MISMATCH " \o ToString(g.tr) \o " " \o ToString(l) \o " " \o ToJson(expected))
 
+\* the rule an event loads; fields it does not carry keep the value of `old'
+RuleOf(e, old, epoch) ==
+    [ep |-> epoch, si |-> e.si, maxq |-> e.maxq,
+     tn |-> IF "tn" \in DOMAIN e THEN e.tn ELSE old.tn, td |-> IF "td" \in DOMAIN e THEN e.td ELSE old.td,
+     rule |-> IF "rule" \in DOMAIN e
+              THEN [low |-> e.rule.low, high |-> e.rule.high, lwm |-> e.rule.lwm, hwm |-> e.rule.hwm]
+              ELSE old.rule]
+Cur0 == [ep |-> 0, si |-> 1, maxq |-> 0, tn |-> 0, td |-> 1, rule |-> NoRule]
+
 TNew ==
     /\ IsEvent("new")
-    /\ g' = [tr |-> Ev.tr, maxq |-> Ev.maxq, tol |-> Ev.tol, si |-> Ev.si,
-             rule |-> IF "rule" \in DOMAIN Ev
-                      THEN [low |-> Ev.rule.low, high |-> Ev.rule.high, lwm |-> Ev.rule.lwm, hwm |-> Ev.rule.hwm]
-                      ELSE NoRule]
+    /\ g' = [tr |-> Ev.tr, tol |-> Ev.tol]
+    /\ cur' = RuleOf(Ev, Cur0, 0)
     /\ seq' = 0 /\ reqs' = {} /\ pend' = [p \in Procs |-> None] /\ failed' = FALSE
 
+\* a rule reload returned: from now on every arriving request is owed the parameters it carries
+TReload ==
+    /\ IsEvent("reload")
+    /\ cur' = RuleOf(Ev, cur, cur.ep + 1)
+    /\ UNCHANGED <<g, seq, reqs, pend, failed>>
+
 \* the threshold in force for the request being invoked
-ThrOf(e) == IF "mem" \in DOMAIN e THEN MemThr(g.rule, e.mem) ELSE <<e.tn, e.td>>
+ThrOf(e) == IF "mem" \in DOMAIN e THEN MemThr(cur.rule, e.mem)
+            ELSE IF "tn" \in DOMAIN e THEN <<e.tn, e.td>> ELSE <<cur.tn, cur.td>>
 
 TInv ==
     /\ IsEvent("inv")
     /\ seq' = seq + 1
     /\ pend' = [pend EXCEPT ![Ev.p] = [id |-> Ev.p, arr |-> Ev.arr, b |-> Ev.b, tn |-> ThrOf(Ev)[1], td |-> ThrOf(Ev)[2],
+                                       si |-> cur.si, mq |-> cur.maxq, g |-> cur.ep,
                                        res |-> "pending", w |-> 0, inv |-> seq + 1, ret |-> 0]]
-    /\ UNCHANGED <<g, reqs, failed>>
+    /\ UNCHANGED <<g, cur, reqs, failed>>
 
 TRet ==
     /\ IsEvent("ret")
     /\ seq' = seq + 1
     /\ reqs' = reqs \cup {[pend[Ev.p] EXCEPT !.res = Ev.res, !.w = Ev.w, !.ret = seq + 1]}
     /\ pend' = [pend EXCEPT ![Ev.p] = None]
-    /\ UNCHANGED <<g, failed>>
+    /\ UNCHANGED <<g, cur, failed>>
 
-TStep == IsEvent("step") /\ UNCHANGED <<g, seq, reqs, pend, failed>>
-TTick == IsEvent("tick") /\ UNCHANGED <<g, seq, reqs, pend, failed>>
+TStep == IsEvent("step") /\ UNCHANGED <<g, cur, seq, reqs, pend, failed>>
+TTick == IsEvent("tick") /\ UNCHANGED <<g, cur, seq, reqs, pend, failed>>
 
 \* what the spec holds each request to (reported with a rejected trace)
-Owes(rs, si) == { [id |-> r.id, iv |-> Iv(r, si), big |-> Big(r)] : r \in rs }
+Owes(rs) == { [id |-> r.id, g |-> r.g, iv |-> Iv(r), mq |-> r.mq, big |-> Big(r)] : r \in rs }
 
 TEnd ==
     /\ IsEvent("end")
-    /\ Judge(Spacing(reqs, g.si) /\ BoundedWait(reqs, g.maxq) /\ NoSpuriousReject(reqs, g.si, g.maxq, g.tol),
-             [spacing |-> Spacing(reqs, g.si), boundedwait |-> BoundedWait(reqs, g.maxq),
-              nospurious |-> NoSpuriousReject(reqs, g.si, g.maxq, g.tol), owes |-> Owes(reqs, g.si), reqs |-> reqs])
-    /\ UNCHANGED <<g, seq, reqs, pend>>
+    /\ Judge(Spacing(reqs) /\ BoundedWait(reqs) /\ NoSpuriousReject(reqs, g.tol),
+             [spacing |-> Spacing(reqs), boundedwait |-> BoundedWait(reqs),
+              nospurious |-> NoSpuriousReject(reqs, g.tol), owes |-> Owes(reqs), reqs |-> reqs])
+    /\ UNCHANGED <<g, cur, seq, reqs, pend>>
 
-TInit == l = 1 /\ g = [tr |-> 0, maxq |-> 0, tol |-> 0, si |-> 1, rule |-> NoRule] /\ seq = 0 /\ reqs = {}
+TInit == l = 1 /\ g = [tr |-> 0, tol |-> 0] /\ cur = Cur0 /\ seq = 0 /\ reqs = {}
          /\ pend = [p \in Procs |-> None] /\ failed = FALSE
-TNext == TNew \/ TInv \/ TRet \/ TStep \/ TTick \/ TEnd
+TNext == TNew \/ TReload \/ TInv \/ TRet \/ TStep \/ TTick \/ TEnd
 TSpec == TInit /\ [][TNext]_tvars
 =============================================================================
